@@ -238,6 +238,15 @@ theorem roundDigits_half_even (floor : K → K) (hf : IsFloor floor) (digits : I
   unfold roundDigits
   rw [if_neg (by omega), if_pos hd, ha, hm]
 
+/-- ... and `digits < 0` (`p = 10^-digits`): an entry with `a / p` exactly halfway goes to the EVEN multiple of `p` -/
+theorem roundDigits_neg_half_even (floor : K → K) (hf : IsFloor floor) (digits : Int) (hd : digits < 0) (p : K) (a : K)
+    (n : ℤ) (ha : a / p = (n : K) + 1 / 2) :
+    ∃ m : ℤ, roundDigits (rintHE floor) digits p a = ((2 * m : ℤ) : K) * p ∧ (2 * m = n ∨ 2 * m = n + 1) := by
+  obtain ⟨m, hm, hor⟩ := rintHE_half_even floor hf n
+  refine ⟨m, ?_, hor⟩
+  unfold roundDigits
+  rw [if_neg (by omega), if_neg (by omega), ha, hm]
+
 /-- same for `digits = 0` (`numpy.round(x)` is `rint`) -/
 theorem roundDigits_zero_half_even (floor : K → K) (hf : IsFloor floor) (p : K) (n : ℤ) :
     ∃ m : ℤ, roundDigits (rintHE floor) 0 p ((n : K) + 1 / 2) = ((2 * m : ℤ) : K) ∧ (2 * m = n ∨ 2 * m = n + 1) := by
